@@ -4,7 +4,7 @@ cd "$(dirname "$0")/.."
 python3 sa/evalseed.py seeded/C01-1/patch.diff C01 >/dev/null 2>&1
 one() {
   d=$1
-  while :; do for slot in 0 1 2 3 4 5; do exec 9>.work/evalslot.$slot; if flock -n 9; then break 2; fi; done; sleep 0.2; done
+  while :; do for slot in 0 1 2 3 5 6; do exec 9>.work/evalslot.$slot; if flock -n 9; then break 2; fi; done; sleep 0.2; done
   r=$(EVAL_SLOT=$slot python3 sa/evalseed.py $d/patch.diff 2>&1 | python3 -c "
 import sys,json
 try:
